@@ -134,7 +134,6 @@ def _record(job):
                 if nostore:
                     ev = {"a": a, "exc": exc, "res": res, "store": [], "valid": d.valid(), "nostore": 1,
                           "ix": {"n": 0, "q": [], "live": [], "fresh": []}}
-                    ev["valid"] = 0        # no index observation without contents
                     if rec is not None and a["op"] in ("insert", "insert_multiple"):
                         # no contents projection here, but the I/O calls of the insert are still observable
                         ev["io"] = io_obs(d, rec, before, a, tmpdir, os.path.dirname(path), tmp_before, lite=True)
